@@ -82,6 +82,21 @@ def run(ctx):
         kinds[k] = kinds.get(k, 0) + 1
         if k in ("tls", "rec", "tcp", "udp", "http", "frames", "qext"):
             distinct.add(op)
+    # measured distribution of the implementation's answers per op kind
+    outcomes = {}
+    for op, im in zip(opl, read_lines(impl)):
+        k = op.split(" ", 1)[0]
+        a = im.split(" # ", 1)[0]
+        if k == "tcp":
+            a = [f for f in a.split() if f.startswith("res=")][0][4:]
+        elif k == "udp":
+            a = a.split()[-2].split("/")[0] + ("+needmore" if a.split()[-2].endswith("/1") else "")
+        elif k in ("chenc", "fenc", "frames", "uvar", "likely", "norm"):
+            a = a.split(" ", 1)[0].split("=")[0] if k in ("chenc", "fenc") else a.split(" ", 1)[0]
+        a = "ok" if a.startswith("ok") else a
+        outcomes.setdefault(k, {})
+        outcomes[k][a] = outcomes[k].get(a, 0) + 1
+    ctx.cov["answer_distribution"] = outcomes
     stats = json.load(open(os.path.join(ctx.out, "c06.stats.json")))
     ctx.samples = stats["samples"][:4] + [o[:300] for o in opl[:3]] + [o[:300] for o in opl if o.startswith("udp ")][:2]
     ctx.cov["input_distribution"] = stats["counters"]
